@@ -1,12 +1,14 @@
 import Placement.Driver.Core
 import Placement.Driver.Cands
+import Placement.Driver.Reads
 /-
   Executable of the model driver.  Extension modules (`Placement/Driver/*.lean`) register their
   command handlers in `extensions`.
 -/
 open Placement.Driver
 
-def extensions : List Ext := [Placement.Driver.Cands.handle?]
+def extensions : List Ext := [Placement.Driver.Cands.handle?,
+  Placement.Driver.Reads.handle?]
 
 def main : IO Unit := do
   loop extensions (← IO.getStdin) (← IO.getStdout) {}
